@@ -60,7 +60,12 @@ impl AppendTextComment {
                 .map(|content| {
                     if content.is_empty() {
                         "".to_owned()
-                    } else if content.contains('\n') {
+                    } else if content.contains('\n')
+                        || content.contains('\r')
+                        || starts_like_long_bracket(&content)
+                    {
+                        // a line comment ends at the first line break (a carriage return is
+                        // one for Lua 5.1) and `--[[` or `--[=[` would open a long comment
                         let mut equal_count = 0;
 
                         let close_comment = loop {
@@ -186,6 +191,13 @@ impl RuleConfiguration for AppendTextComment {
     fn metadata(&self) -> &RuleMetadata {
         &self.metadata
     }
+}
+
+fn starts_like_long_bracket(content: &str) -> bool {
+    content
+        .strip_prefix('[')
+        .map(|rest| rest.trim_start_matches('=').starts_with('['))
+        .unwrap_or(false)
 }
 
 #[derive(Debug, Default, PartialEq, Eq)]
